@@ -78,6 +78,10 @@ def json_to_sql(value):
         return '[' + ', '.join(json_to_sql(v) for v in value) + ']'
     if isinstance(value, dict):
         return '{' + ', '.join(f'{json_to_sql(str(k))}: {json_to_sql(v)}' for k, v in value.items()) + '}'
+    if isinstance(value, float) and value == value and value not in (float('inf'), float('-inf')):
+        # the grammar has no exponent form for numbers (json.dumps wrote 1.5e-07, which does not parse back)
+        from mindsdb_sql.parser.ast.select.constant import float_to_str
+        return float_to_str(value)
     return json.dumps(value, ensure_ascii=False)
 
 
